@@ -205,7 +205,14 @@ def h_alpha(h):
     h.observe("alpha", al)
 
 
+from props.c18 import h_rebuild as _h_rebuild
+import WallGo.interpolatableFunction as _IF
+
 HARNESSES = [
+    # dp/dT, d2p/dT2 come from the derivative splines of the free-energy table (FreeEnergy is an
+    # InterpolatableFunction): after a re-trace they must be those of the new table
+    HarnessDef("free-energy-table-rebuild", _h_rebuild, [dict(k=2)], [dict(k=2), dict(k=3)], max_paths=40, timeout_s=30,
+               encodes=[_IF.InterpolatableFunction._interpolate, _IF.InterpolatableFunction.derivative], random_validation=1),
     HarnessDef("phase", h_phase, [dict(phase="High"), dict(phase="Low")], max_paths=40,
                timeout_s=60, axioms=[axioms.pow_axioms],
                encodes=[TH.Thermodynamics.setExtrapolate] + [
